@@ -38,6 +38,7 @@ RULE += ' History pool additionally holds two reference-written stack cells (emp
 ASSUMPTIONS = ['the bundled block.tlb is the specification of VmStack', 'values are compared logically (cells by hash, slices by remaining bits and references)']
 NOT_ASSERTED = ['the Python types used for control-data fields differ between serialiser input (cells) and parser output (list / dict of slices); they are compared by content',
                 'the 64-bit vs 257-bit form for exactly -2^63 (TON and the schema allow both)', 'NaN and raw bytes values (not in the property\'s list of supported values)']
+RULE += ' Sixth session: refused calls inside histories (a tuple poisoned with an integer outside the 257-bit range, repaired later: nothing changes, nothing is remembered); parsed continuations are serialised again; tuples nested 1..700 levels (recorded finding above about 330).'
 
 
 def BOUNDS(tier):
